@@ -79,11 +79,12 @@ def fam4(k):
     heads = [("F(...)", ["__VA_ARGS__", "#__VA_ARGS__", "##", ",", "1"]),
              ("F(x,...)", ["__VA_ARGS__", "x", "#__VA_ARGS__", "##", ",", "1"]),
              ("F(x,y...)", ["y", "x", "#y", "##", ",", "1"])]
-    inv = ["F()", "F(1)", "F(1,2)", "F(1,2,3)", "F(,)", "F((1,2),3)", "F(a b , c)"]
+    # k is an object-like macro: a variable argument that names it is pre-expanded for __VA_ARGS__ but not for #__VA_ARGS__ / ##
+    inv = ["F()", "F(1)", "F(1,2)", "F(1,2,3)", "F(,)", "F((1,2),3)", "F(a b , c)", "F(k)", "F(k,2)", "F(1,k,k)"]
     for h, P in heads:
         for b in strings(P, k):
             for i in inv:
-                yield ([f"{h} {b}"], i)
+                yield ([f"{h} {b}", "k 7"], i)
 
 
 def balanced(alpha, n):
